@@ -12,7 +12,7 @@ RULE = ("charts with a random subset (0-6) of the 40 tracks; selections: None, [
         "with a copy of the real body, another valid body or an unbuildable one, placed right after the real section or anywhere; judged against the implementation's unrestricted parse of the ORIGINAL text: metadata / sync / events equal, every (instrument, "
         "difficulty) other than the replaced one has exactly the unrestricted track if selected and none otherwise, no empty instrument entry, and a selection alone never turns a successful "
         "parse into a failure (a replaced body may only when it is selected). Non-trivial: a selection other than None or a replaced body; distinct by (text, selection)")
-ASSUMPTIONS = ["section names are distinct (a duplicated header overwrites, as dict assignment does, and is outside the property)"]
+ASSUMPTIONS = ["a section name written twice denotes its later copy (dict assignment); such files are generated too: restricted and unrestricted parses must agree on them"]
 
 IN_TYPE = "(C13_aux * %s)" % PARSE_IN
 VERDICT = "fun i o => parse_verdict cfg (snd i) o"
@@ -39,6 +39,12 @@ def gen(rng):
     order = list(range(len(secs)))
     rng.shuffle(order)
     secs = [secs[i] for i in order]
+    if rng.random() < 0.12:
+        # a section written twice (the later copy is the one every parse must use, selected or not): a track, or [Events] / [SyncTrack]
+        tag = rng.choice(hs + ["Events"]) if hs else "Events"
+        first = [t for t, _ in secs].index(tag)
+        body = ["  " + l for l in ig.section_lines(rng, ig.gen_groups(rng, 192, 2), 192)] if tag != "Events" else ['  5 = E "section other"']
+        secs.insert(rng.randint(first + 1, len(secs)), (tag, body))
     present = [key_of_header(h) for h in hs]
     allpairs = [(i, d) for i in ivals for d in dvals]
     mode = rng.choice(["none", "empty", "one", "subset", "superset", "absent", "cross", "dup", "all_expert_plus_guitar"])
